@@ -19,8 +19,10 @@ CHECK_FN = "C13.check_case"
 SHARD = 150
 RULE = ("a case is a scratch namespace directory (files and directories with given names and texts) read with read_namespace "
         "(a quarter of the mutated texts and half of the name cases with read_files on the listed files); "
-        "observable: 'models returned' or the coarse exception class, plus whether .path of an InvalidDefinitionError is set and "
-        "lies inside the scratch namespace; structured cases (one expression statement with planted failure modes) are "
+        "observable: 'models returned' or the coarse exception class, plus whether .path of an InvalidDefinitionError is set, exists "
+        "and lies inside the directories read by THIS call (every case gets a directory never used before in the process), and - "
+        "where the case plants one defect in a known file (dependency-finalize stream) - whether it names exactly that file; a "
+        "sample of the cases of each process is read a second time from another directory and must be judged the same way; structured cases (one expression statement with planted failure modes) are "
         "additionally compared with the outcome class the Coq model predicts; non-trivial = the text differs from the valid "
         "corpus / contains a planted failure mode; distinct = by hash of the canonical case")
 THEOREMS_NOTE = ("C13_no_internal_partial/C13_arith_handlers/C13_literal_handlers/C13_funnel cover the modelled layers; arbitrary "
